@@ -9,7 +9,7 @@ import re as _re
 from typing import Any, Dict, List, Optional, Set, Tuple
 
 from .. import materialize, rx
-from ..core import AnalysisError, Ctx, assigned_names, dotted, effective_body, names_in, norm, stmts_local, walk_local
+from ..core import presence_test, Locals, AnalysisError, Ctx, assigned_names, dotted, effective_body, names_in, norm, stmts_local, walk_local
 from ..effects import Effects
 from ..guards import guarded, paths_of
 from ..paths import enumerate_paths
@@ -61,12 +61,17 @@ def dedupe_group_names(pattern: str) -> Tuple[str, Dict[str, List[str]]]:
     return _re.sub(r"\(\?P<([A-Za-z_][A-Za-z0-9_]*)>", repl, pattern), copies
 
 
-def _len_of_set_over(test: ast.AST, base: str) -> bool:
+def _len_of_set_over(test: ast.AST, base: str, fn=None) -> bool:
     """`len(set(<projection> for .. in base)) == 1` (or the set-comprehension spelling)"""
+    if isinstance(test, ast.Compare) and len(test.ops) == 1 and isinstance(test.ops[0], ast.Eq) and isinstance(test.left, ast.Constant):
+        import copy as _c
+        test = ast.copy_location(ast.Compare(left=test.comparators[0], ops=[ast.Eq()], comparators=[test.left]), test)
     if not (isinstance(test, ast.Compare) and len(test.ops) == 1 and isinstance(test.ops[0], ast.Eq) and isinstance(test.comparators[0], ast.Constant)
             and test.comparators[0].value == 1 and isinstance(test.left, ast.Call) and dotted(test.left.func) == "len" and len(test.left.args) == 1):
         return False
     a = test.left.args[0]
+    if isinstance(a, ast.Name) and fn is not None:
+        a = Locals(fn).expand(a, test, depth=1)
     if isinstance(a, ast.Call) and dotted(a.func) == "set" and a.args:
         a = a.args[0]
     if isinstance(a, (ast.SetComp, ast.GeneratorExp, ast.ListComp)) and len(a.generators) == 1 and not a.generators[0].ifs:
@@ -448,10 +453,32 @@ class C04:
         cp = self.repo.func("models.ResourceCitation.corrected_page")
         if cp is None:
             return False
-        first = effective_body(cp)
-        summary = len(first) >= 2 and isinstance(first[1], ast.If) and " is None" in norm(first[1].test) and isinstance(first[1].body[0], ast.Return) \
-            and first[1].body[0].value is None
-        if not summary:
+        # summary, path-based: every path of corrected_page() that returns something other than None has established that the page
+        # group is not None (so a truthy result implies a non-None page)
+        S_ = cp.args.args[0].arg
+        page_vars = {norm(x.targets[0]) for x in stmts_local(cp.body) if isinstance(x, ast.Assign) and len(x.targets) == 1
+                     and norm(x.value) in (f"{S_}.groups.get('page')", f"{S_}.groups['page']")}
+        page_texts = page_vars | {f"{S_}.groups.get('page')", f"{S_}.groups['page']"}
+        summary, n_val = True, 0
+        for p in enumerate_paths(cp.body):
+            if p.exit != "return":
+                if p.exit == "fall":
+                    continue  # implicit None
+                summary = False
+                continue
+            rv = p.exit_node.value
+            if rv is None or (isinstance(rv, ast.Constant) and rv.value is None):
+                continue
+            n_val += 1
+            known = False
+            for ev in p.events:
+                if ev[0] == "cond":
+                    pt = presence_test(ev[1], ev[2])
+                    if pt and pt[0] in page_texts and pt[1]:
+                        known = True
+            if not known:
+                summary = False
+        if not summary or n_val == 0:
             return False
         # dominated by truthiness of a local assigned from self.corrected_page()
         locs = [norm(s.targets[0]) for s in stmts_local(fn.body) if isinstance(s, ast.Assign) and isinstance(s.value, ast.Call) and norm(s.value.func).endswith("corrected_page")]
@@ -569,10 +596,12 @@ class C04:
             cur = s
             while cur is not fn:
                 par = cur.parent
-                if isinstance(par, ast.If) and cur in par.body and _len_of_set_over(par.test, base):
+                if isinstance(par, ast.If) and cur in par.body and _len_of_set_over(par.test, base, fn):
                     return True
                 cur = par
-            return False
+            from ..paths import guards_of, stmt_of
+            gs, _n = guards_of(paths_of(fn), stmt_of(s))
+            return any(o_ and _len_of_set_over(c_, base, fn) for c_, o_ in gs)
         if q == "tokenizers.token_is_from_nominative_reporter":
             # every citation extractor has >= 1 edition, so if exact is empty variation is not: `variation[0]` on the else side of an
             # exact-editions test, or `(exact or variation)[0]` through a local
